@@ -65,7 +65,7 @@ META["rule"] += (
     " " + 'Added after the seventh round: spectral measures on unconnected graphs with a simple leading eigenvalue (half of the two-component graphs have equal-sized components); 30 % of the resistive networks built without a grid (geographic measures left out).')
 
 META["rule"] += (
-    " " + 'Added after the eighth round: on the large networks a layer of consecutive nodes plus one further node (three in turn, same targets) as int8 / uint8 / int16 arrays for the group measures, and one nsi_betweenness(parallelize=True) against the renumbered serial answer.')
+    " " + 'Added after the eighth round: on the large networks a layer of consecutive nodes plus one further node (three in turn, same targets) as int8 / uint8 / int16 arrays for the group measures, and one nsi_betweenness(parallelize=True) against the renumbered serial answer; hamming_distance_from with both networks renumbered alike (and counted independently).')
 
 HIST = ("distribution", "cdf", "histogram", "entropy")
 # nsi_degree_histogram & co. bin float values: when all nodes have the same
@@ -187,6 +187,34 @@ def compare_objects(ctx, kind, o0, o1, perm, n, cid, case, have_attr,
     if pick and len(meths) > pick:
         meths = [meths[i] for i in sorted(r.choice(len(meths), pick, False))]
     nonid = not np.array_equal(perm, np.arange(n))
+    if callable(getattr(o0, "hamming_distance_from", None)) and n >= 2 and \
+            type(o0).__name__ == "Network":
+        # a measure of two networks: both are renumbered alike
+        from pyunicorn.core import Network as _Net
+        d_ = bool(getattr(o0, "directed", False))
+        B = (r.random((n, n)) < 0.4).astype(np.int8)
+        np.fill_diagonal(B, 0)
+        if not d_:
+            B = np.triu(B, 1)
+            B = B + B.T
+        b0 = _Net(adjacency=B, directed=d_, silence_level=3)
+        b1 = _Net(adjacency=B[np.ix_(perm, perm)], directed=d_,
+                  silence_level=3)
+        ok0, h0 = ctx.call(o0.hamming_distance_from, b0)
+        ok1, h1 = ctx.call(o1.hamming_distance_from, b1)
+        ctx.evals(2)
+        ctx.count("two_network_measures")
+        if ok0 and ok1:
+            want = float((np.asarray(o0.adjacency) != B).sum()) / (n * (n - 1))
+            if abs(float(h0) - float(h1)) > 1e-12 or \
+                    abs(float(h0) - want) > 1e-12:
+                ctx.violation(f"{kind}:hamming_distance_from:not-equivariant",
+                              {**case, "perm": perm, "orig": float(h0),
+                               "relabelled": float(h1), "counted": want},
+                              cid)
+        elif ok0 != ok1:
+            ctx.violation(f"{kind}:hamming_distance_from:raises-on-one-"
+                          "labelling", {**case, "perm": perm}, cid)
     with warnings.catch_warnings():
         warnings.simplefilter("ignore")
         for label, name, kw in meths:
